@@ -382,6 +382,81 @@ fn body_zrangebyscore<const N: usize>(h: [usize; N]) {
     std::mem::forget(e);
 }
 
+// ---------------------------------------------------------------- C19: ZSCAN iteration across a re-score
+/// A full ZSCAN iteration with COUNT 2 over three members m0, m1, m2 (symbolic, distinct) while m0 is
+/// re-scored from below the others to above them between the two calls.  The state after the
+/// re-score is built directly (same members, new score order) - that ZADD produces exactly such a
+/// state is decided by the c04_e_zadd_* / c04_*_h* harnesses.  Every member exists throughout, so
+/// every member must be returned at least once, nothing else may be returned, and the iteration ends.
+fn body_zscan_rescore() {
+    let m: [u8; 3] = kani::any();
+    kani::assume(m[0] != m[1] && m[0] != m[2] && m[1] != m[2]);
+    let e1 = z_engine();
+    z_put(&e1, KEY, Value::SortedSet(Arc::new(ZL::verif_from::<3>([1, 1, 1], [m[0], m[1], m[2]], [1.0, 2.0, 3.0]))));
+    let e2 = z_engine();
+    z_put(&e2, KEY, Value::SortedSet(Arc::new(ZL::verif_from::<3>([1, 1, 1], [m[1], m[2], m[0]], [2.0, 3.0, 4.0]))));
+    let mut seen = [false; 3];
+    let mut extra = false;
+    let r1 = std::mem::ManuallyDrop::new(e1.zscan(0, KEY, 0, None, 2));
+    let cur = match &*r1 {
+        Ok((c, items)) => {
+            let mut i = 0;
+            while i < items.len() && i < 3 {
+                let b = if items[i].0.len() == 1 { items[i].0[0] } else { extra = true; 0 };
+                let mut j = 0;
+                let mut hit = false;
+                while j < 3 {
+                    if b == m[j] {
+                        seen[j] = true;
+                        hit = true;
+                    }
+                    j += 1;
+                }
+                if !hit {
+                    extra = true;
+                }
+                i += 1;
+            }
+            assert!(items.len() <= 2, "ZSCAN COUNT 2 returns at most 2 members here");
+            *c
+        }
+        Err(_) => {
+            assert!(false, "ZSCAN on a sorted set must succeed");
+            loop {}
+        }
+    };
+    assert!(cur != 0, "three members with COUNT 2: the first call cannot finish the iteration");
+    let r2 = std::mem::ManuallyDrop::new(e2.zscan(0, KEY, cur, None, 2));
+    match &*r2 {
+        Ok((c, items)) => {
+            let mut i = 0;
+            while i < items.len() && i < 3 {
+                let b = if items[i].0.len() == 1 { items[i].0[0] } else { extra = true; 0 };
+                let mut j = 0;
+                let mut hit = false;
+                while j < 3 {
+                    if b == m[j] {
+                        seen[j] = true;
+                        hit = true;
+                    }
+                    j += 1;
+                }
+                if !hit {
+                    extra = true;
+                }
+                i += 1;
+            }
+            assert!(*c == 0, "the second call reaches the end of the collection");
+        }
+        Err(_) => assert!(false, "ZSCAN on a sorted set must succeed"),
+    }
+    kani::cover!(seen[0] && seen[1] && seen[2], "witness: all three members returned");
+    assert!(!extra, "ZSCAN returned something that is not a member");
+    assert!(seen[0] && seen[1] && seen[2], "a member that existed throughout the iteration was not returned (re-score between calls)");
+    std::mem::forget(e1);
+    std::mem::forget(e2);
+}
+
 // ---------------------------------------------------------------- harnesses
 // Written out one by one (replay.py looks for `fn <name>(` in this file).
 #[kani::proof]
@@ -464,4 +539,14 @@ fn c04_e_zrank_n2() {
 #[kani::stub(crate::storage::skiplist::SkipList::random_level, crate::storage::skiplist::SkipList::verif_rl)]
 fn c04_e_zrangebyscore_n2() {
     body_zrangebyscore::<2>([1, 2]);
+}
+
+#[kani::proof]
+#[kani::unwind(6)]
+#[kani::stub(std::time::Instant::now, crate::verif_common::now_fixed)]
+#[kani::stub(catch_unwind, cu_stub)]
+#[kani::stub(std::vec::Vec::new, crate::verif_common::vec_new_cap8)]
+#[kani::stub(std::vec::Vec::push, crate::verif_common::vec_push_nogrow)]
+fn c19_zscan_rescore() {
+    body_zscan_rescore();
 }
